@@ -1,7 +1,7 @@
 (* C14: case/observation types, executable checker [holds], sx entry point. *)
 From Coq Require Import String.
 From Coq Require Import List NArith ZArith Bool Arith.
-From VF Require Import Base.Sx TextFile.Model.
+From VF Require Import Base.Sx TextFile.Model TextFile.Proofs.
 Import ListNotations.
 Open Scope N_scope.
 
@@ -48,7 +48,7 @@ Definition content_covered (c : case) (f : fstate) : bool :=
   end.
 Definition covered (c : case) : bool :=
   content_covered c (snd (init c)) &&
-  forallb (fun s => match s with SEdit _ f => content_covered c f | SCall _ => true end) (hist c).
+  forallb (fun s => match s with SEdit _ f => content_covered c f | _ => true end) (hist c).
 
 (* ---------- sx encodings ---------- *)
 Definition val_sx (v : val) : sx :=
@@ -175,11 +175,19 @@ Definition dec_fstate (x : sx) : option fstate :=
   | L [I 2%Z] => Some FBad
   | _ => None
   end.
+Definition dec_call (x : sx) : option call :=
+  match x with
+  | L [I 1%Z; id] => option_map CGet (dec_val id)
+  | L [I 2%Z; B k; v] => option_map (CFind k) (dec_val v)
+  | _ => None
+  end.
 Definition dec_step (x : sx) : option hstep :=
   match x with
   | L [I 0%Z; v; f] => obind (asN v) (fun v => option_map (SEdit v) (dec_fstate f))
   | L [I 1%Z; id] => option_map (fun id => SCall (CGet id)) (dec_val id)
   | L [I 2%Z; B k; v] => option_map (fun v => SCall (CFind k v)) (dec_val v)
+  | L [I 3%Z; cl; L [I 0%Z; e]] => obind (dec_call cl) (fun cl => option_map (fun e => SCallF cl (FIO e)) (asN e))
+  | L [I 3%Z; cl; L [I 1%Z; tok]] => obind (dec_call cl) (fun cl => option_map (fun t => SCallF cl (FStat t)) (asN tok))
   | _ => None
   end.
 Definition dec_case (x : sx) : option case :=
@@ -212,35 +220,48 @@ Definition answers (o : obs) : list answer := flat_map (fun ab => [fst ab; snd a
 Definition vt_all (l : list answer) : bool :=
   let ps := flat_map vt_key l in forallb (fun p => forallb (vt_pair p) ps) ps.
 
-Fixpoint check (O : oracle) (c : cfg) (f : fstate) (h : list hstep) (o : obs) : list string :=
+Definition call_clauses (cl : call) (a b s_long s_fresh : answer) : list string :=
+  (if deqb b s_fresh then [] else
+     [match cl with CGet _ => "first_line_wins"%string | CFind _ _ => "find_spec"%string end]) ++
+  (if deqb a s_long then [] else
+     [match cl with CGet _ => "reload_complete_get_data"%string
+                  | CFind _ _ => "reload_complete_find_system"%string end]).
+
+(* mirrors the reference run [spec_run]: memo = stat version the snapshot is remembered for *)
+Fixpoint check (O : oracle) (c : cfg) (memo : option N) (fs : N * fstate) (h : list hstep) (o : obs) : list string :=
   match h with
   | [] => match o with [] => [] | _ :: _ => ["obs_shape"%string] end
-  | SEdit _ f' :: r => check O c f' r o
+  | SEdit v f :: r => check O c memo (v, f) r o
   | SCall cl :: r =>
       match o with
       | [] => ["obs_shape"%string]
       | (a, b) :: o' =>
-          let s := spec_answer O c f cl in
-          (if deqb b s then [] else
-             [match cl with CGet _ => "first_line_wins"%string | CFind _ _ => "find_spec"%string end]) ++
-          (if deqb a s then [] else
-             [match cl with CGet _ => "reload_complete_get_data"%string
-                          | CFind _ _ => "reload_complete_find_system"%string end]) ++
+          let s := spec_answer O c (snd fs) cl in
+          call_clauses cl a b s s ++
           (if deqb a b then [] else ["no_remnant_same_as_fresh_source"%string]) ++
-          check O c f r o'
+          check O c (memo_after O c memo (fst fs) (snd fs)) fs r o'
+      end
+  | SCallF cl flt :: r =>
+      match o with
+      | [] => ["obs_shape"%string]
+      | (a, b) :: o' =>
+          let fs' := faulted fs flt in
+          let s_long := spec_answer O c (if hitb c memo (fst fs') then snd fs else snd fs') cl in
+          (if deqb b (spec_answer O c (snd fs) cl) then [] else
+             [match cl with CGet _ => "first_line_wins"%string | CFind _ _ => "find_spec"%string end]) ++
+          (if deqb a s_long then [] else ["fault_is_the_result_or_snapshot_still_valid"%string]) ++
+          check O c (memo_after O c memo (fst fs') (snd fs')) fs r o'
       end
   end.
 
 Definition holds (c : case) (o : obs) : list string :=
   nodup string_dec
-    (check (oracle_of (tabs c)) (ccfg c) (snd (init c)) (hist c) o ++
+    (check (oracle_of (tabs c)) (ccfg c) None (init c) (hist c) o ++
      (if vt_all (answers o) then [] else ["version_tracks_data"%string])).
 
 (* hypotheses of the property: the stat version determines the content; the hash has no collision *)
 Definition valid (c : case) : Prop :=
-  (exists content_of : N -> fstate,
-     snd (init c) = content_of (fst (init c)) /\
-     Forall (fun s => match s with SEdit v f => f = content_of v | SCall _ => True end) (hist c)) /\
+  (exists content_of : N -> fstate, consistent content_of (init c) (hist c)) /\
   (forall a b, o_hash (oracle_of (tabs c)) a = o_hash (oracle_of (tabs c)) b -> a = b).
 
 Definition entry (x : sx) : sx :=
